@@ -38,6 +38,9 @@ def run_config(cfg, transport='udp', calls=3):
         if first_ok is None:
             first_ok = i
         keys = set(res[1])
+        le = world.listed(inv).error
+        if le:
+            vio.append(('sensors()-works', f'after call {i + 1}: {le}'))
         # the device does not change between the calls: "refused blocks disappear, supported ones are all present" at
         # every call that returns means every such call reports the same ids
         if keysets and keys != keysets[-1][1]:
@@ -45,7 +48,7 @@ def run_config(cfg, transport='udp', calls=3):
             vio.append(('supported-present-at-every-call', f'call {j + 1} reported {sorted(prev - keys)[:3]} (+{len(prev - keys)}), '
                                                             f'call {i + 1} does not; new in call {i + 1}: {sorted(keys - prev)[:3]}'))
         keysets.append((i, keys))
-        ids = {s.id_ for s in inv.sensors()}
+        ids = {s.id_ for s in world.listed(inv)}
         if keys != ids:
             extra = sorted(keys - ids)[:4]
             missing = sorted(ids - keys)[:4]
@@ -62,7 +65,7 @@ def run_config(cfg, transport='udp', calls=3):
                 if served:
                     lo, hi = window_of(served[-1])
                     inside = [s.id_ for s in sensors if lo <= s.offset <= hi]
-                    listed = {s.id_ for s in inv.sensors()}
+                    listed = {s.id_ for s in world.listed(inv)}
                     expect = [x for x in inside if x in listed or True]
                     # first and last sensor of the served window must be reported (unless the model filters them)
                     cand = [x for x in inside if x in ids]
@@ -81,7 +84,7 @@ def run_config(cfg, transport='udp', calls=3):
         vio.append(('requests-parse', str(dev.bad[0][1])))
     if dev.write_functions_seen():
         vio.append(('no-write-function', str(dev.write_functions_seen()[0])[:80]))
-    return vio, tuple(outcomes) + (len(inv.sensors()),)
+    return vio, tuple(outcomes) + (len(world.listed(inv)),)
 
 
 # ------------------------------------------------------------------ capabilities that change BETWEEN calls
@@ -118,7 +121,7 @@ def run_dynamic(cfg, changes, probe_reads=False):
             res = r.call(inv.read_runtime_data)
         outs.append(res[0])
         if res[0] == 'ok':
-            keys, ids = set(res[1]), {s.id_ for s in inv.sensors()}
+            keys, ids = set(res[1]), {s.id_ for s in world.listed(inv)}
             if keys != ids:
                 vio.append(('keys==sensors()', f'after {step}: in result only {sorted(keys - ids)[:3]}, in sensors() only {sorted(ids - keys)[:3]}'))
     # two failures in a row are only legitimate while the device keeps changing; the last two calls see a static device
@@ -155,7 +158,7 @@ def run_transient(cfg, k, probe_reads=False):
         if l0 <= drop < len(dev.log):
             lost_poll = i
         if res[0] == 'ok':
-            keys, ids = set(res[1]), {s.id_ for s in inv.sensors()}
+            keys, ids = set(res[1]), {s.id_ for s in world.listed(inv)}
             if keys != ids:
                 vio.append(('keys==sensors()', f'poll {i + 1} after request #{k + 1} of poll 1 was lost: in result only '
                                                f'{sorted(keys - ids)[:3]}, in sensors() only {sorted(ids - keys)[:3]}'))
